@@ -249,6 +249,17 @@ def run(tier):
                       "an event fetched through next_event_impl can reach the end of the function (or the next fetch) without being "
                       "forwarded to the receiver or to a nested loader: the push interface drops an event", site=site(f, f.blocks[fb]["term"]["sp"]),
                       detail={"path": p})
+        # an event the loader was *given* (its first_ev parameter) is older than anything it fetches: it is forwarded before the first fetch
+        ev_params = [i for i in range(1, f.arg_count + 1) if "parser::Event" in f.locals[i]["ty"]]
+        for pi in ev_params:
+            own_fwd = set()
+            for bb, t, ck, fr in f.calls():
+                if (ck == recv_key or ck in lkeys) and len(t["args"]) > 1 and any(l_ == ("param", pi) for l_ in _leaves(f, t["args"][1])):
+                    own_fwd.add(bb)
+            p = cfg.path_avoiding(f, [0], own_fwd | err, set(fetch_bbs)) if fetch_bbs else None
+            rep.check(bool(own_fwd) and p is None, "forward-order", "%s:%s" % (short(f.key), f.local_name(pi) or "arg%d" % pi),
+                      "a loader fetches the next event before it has handed on the event it was given: when that fetch fails the receiver has seen one "
+                      "event fewer than the iterator returns before the same error", site=f.span, detail={"path": p})
         # provenance of every forwarded event
         for bb, t, ck, fr in f.calls():
             if ck == recv_key or (ck in lkeys and len(t["args"]) >= 4):
